@@ -69,7 +69,8 @@ Proof.
   - unfold conc_check. destruct (hc_conc c v) as [cur|].
     + destruct (cur + 1 <=? thr_of (hc_rule c) v); cbn [fst snd]; split; try discriminate;
         intros H; rewrite Ek in H; discriminate.
-    + cbn [fst snd hc_rule]. split; [|discriminate]. intros H; rewrite Ek in H; discriminate.
+    + destruct (1 <=? thr_of (hc_rule c) v); cbn [fst snd hc_rule]; split; try discriminate;
+        intros H; rewrite Ek in H; discriminate.
   - specialize (Hg eq_refl).
     pose proof (reject_check_ref c v batch now Hg) as H.
     destruct (reject_check c v batch now) as [c' r]. cbv zeta in H.
